@@ -169,18 +169,25 @@ def judge (_id : String) (lines : Array String) : Verdict := Id.run do
       let some n := unescL n | return .badop l
       let some pw := unescL pw | return .badop l
       let some g := parseGrants g | return .badop l
-      if !Spec.wfGrants g then st := st.mm s!"ill-formed table (two entries for one node, or a privilege outside the five): {l}"
+      if !Spec.wfGrants g then st := st.mm s!"ill-formed table (a privilege outside the five): {l}"
       st := { st with users := setUser st.users n pw { admin := adm == "1", grants := g } }
     | ["sub", tok, adm, g] =>
       let some tok := unescL tok | return .badop l
       let some g := parseGrants g | return .badop l
-      if !Spec.wfGrants g then st := st.mm s!"ill-formed table (two entries for one node, or a privilege outside the five): {l}"
+      if !Spec.wfGrants g then st := st.mm s!"ill-formed table (a privilege outside the five): {l}"
       st := { st with subs := (tok, { admin := adm == "1", grants := g }) :: st.subs.filter (fun e => e.1 ≠ tok) }
     | ["az", n, r] =>
       let some n := unescL n | return .badop l
       let some r := unescL r | return .badop l
       let [o] := obs | return .badop l
       st := checkAz st l (st.account n) r fivePrivs o true
+    | ["azn", n, r] =>
+      let some n := unescL n | return .badop l
+      let some r := unescL r | return .badop l
+      let [o] := obs | return .badop l
+      match o.splitOn "|" with
+      | [one] => st := (checkAz st l (st.account n) r fivePrivs one true).br "same-node-entries-united"
+      | _ => st := st.sf "decision-deterministic" s!"{l}: the same table gave different answers"
     | ["azp", n, r, p] =>
       let some n := unescL n | return .badop l
       let some r := unescL r | return .badop l
